@@ -58,7 +58,8 @@ def _batch(case, with_state):
     for k, v in repl.items():
         buf = eqx.tree_at(lambda b, k=k: getattr(b, k), buf, v)
     if with_state:
-        buf = eqx.tree_at(lambda b: (b.states, b.next_states), buf, (CounterState(jnp.arange(B)), CounterState(jnp.arange(B) + 1)))
+        n0 = jnp.asarray(case.get("n_state", list(range(B))), dtype=int)
+        buf = eqx.tree_at(lambda b: (b.states, b.next_states), buf, (CounterState(n0), CounterState(n0 + 1)))
     return buf
 
 
@@ -77,6 +78,11 @@ def _q_all(policy, state, obs):
     return jax.vmap(lambda o: policy.q_values(state, o)[1])(obs)
 
 
+@eqx.filter_jit
+def _q_rows(policy, states, obs):
+    return jax.vmap(lambda st_, o: policy.q_values(st_, o)[1])(states, obs)
+
+
 def _flags(case):
     d, t = np.asarray(case["dones"], bool), np.asarray(case["timeouts"], bool)
     return dict(timeout=bool((d & t).any()), terminated=bool((d & ~t).any()), ordinary=bool((~d & ~t).any()), raw=bool((~d & t).any()))
@@ -86,8 +92,8 @@ def oracle_dqn(ctx: Ctx, case):
     env, spec = _env()
     kind = case["kind"]
     if kind == "table":
-        on = TableQPolicy(env, spec, case["q_on"], 0.1)
-        tg = TableQPolicy(env, spec, case["q_tg"], 0.1)
+        on = TableQPolicy(env, spec, case["q_on"], 0.1, case.get("w_on"))
+        tg = TableQPolicy(env, spec, case["q_tg"], 0.1, case.get("w_tg"))
         pstate = CounterState(jnp.asarray(0, dtype=int))
     else:
         on = MLPQPolicy(env, width_size=8, depth=1, key=jr.key(case["k_on"]))
@@ -97,9 +103,15 @@ def oracle_dqn(ctx: Ctx, case):
     gamma = case["gamma"]
     loss, grads = _dqn_loss_and_grad(on, batch, tg, jnp.asarray(gamma))
     # reference from the policies' own per-row Q values (the networks are the trusted part here)
-    q_s = np.asarray(_q_all(on, pstate, batch.observations), np.float64)
-    q_on_n = np.asarray(_q_all(on, pstate, batch.next_observations), np.float64)
-    q_tg_n = np.asarray(_q_all(tg, pstate, batch.next_observations), np.float64)
+    if kind == "table":
+        # stateful policy: each row is evaluated with the policy state stored in that row
+        q_s = np.asarray(_q_rows(on, batch.states, batch.observations), np.float64)
+        q_on_n = np.asarray(_q_rows(on, batch.next_states, batch.next_observations), np.float64)
+        q_tg_n = np.asarray(_q_rows(tg, batch.next_states, batch.next_observations), np.float64)
+    else:
+        q_s = np.asarray(_q_all(on, pstate, batch.observations), np.float64)
+        q_on_n = np.asarray(_q_all(on, pstate, batch.next_observations), np.float64)
+        q_tg_n = np.asarray(_q_all(tg, pstate, batch.next_observations), np.float64)
     a = np.asarray(case["a"], int)
     B = len(a)
     r = np.asarray(case["rewards"], np.float64)
@@ -132,9 +144,14 @@ def oracle_dqn(ctx: Ctx, case):
         for i in range(B):
             g[s[i], a[i]] += (q_sel[i] - y[i]) / B
         ctx.close(np.asarray(grads.q), g, "C07/dqn/online-gradient-not-semi-gradient", rtol=1e-8, atol=1e-10, tags=tags)
+        gw = np.zeros(NA)
+        n0 = np.asarray(case.get("n_state", list(range(B))), np.float64)
+        for i in range(B):
+            gw[a[i]] += (q_sel[i] - y[i]) / B * n0[i]
+        ctx.close(np.asarray(grads.w), gw, "C07/dqn/online-gradient-not-semi-gradient", rtol=1e-8, atol=1e-10, tags=tags, leaf="w")
     ctx.count(
         nontrivial=fl["timeout"] and fl["terminated"] and fl["ordinary"] and double,
-        classes=[k for k, v in fl.items() if v] + ["double_differs"] * double + [kind],
+        classes=[k for k, v in fl.items() if v] + ["double_differs"] * double + [kind] + ["stateful_q"] * bool(case.get("w_on")),
         key=[kind, case["dones"], case["timeouts"], round(gamma, 4), case.get("k_on", 0) % 64, B],
     )
 
@@ -307,6 +324,10 @@ def dqn_cases(draw, B, kind):
     if kind == "table":
         case["q_on"] = [[draw(_fl) for _ in range(NA)] for _ in range(NS)]
         case["q_tg"] = [[draw(_fl) for _ in range(NA)] for _ in range(NS)]
+        if draw(st.booleans()):  # Q-values that depend on the (recurrent) policy state
+            case["w_on"] = [draw(_fl) for _ in range(NA)]
+            case["w_tg"] = [draw(_fl) for _ in range(NA)]
+        case["n_state"] = [draw(st.integers(0, 6)) for _ in range(B)]
     else:
         case["k_on"] = draw(st.integers(0, 2**31 - 1))
         case["k_tg"] = draw(st.integers(0, 2**31 - 1))
